@@ -9,6 +9,7 @@ each setup() call and after startup.  The same spec is emitted as a Coq term
 and Inject.Model.check_case compares model and implementation inside Coq.
 """
 import collections.abc
+import functools
 import hashlib
 import inspect
 import json
@@ -21,17 +22,51 @@ import typing
 from .common import (CORPUS, coq_bool, coq_list, coq_nat, coq_string, parse_eval_lists, shards)
 
 NS = "c08_ns"
+
+
+class CallableInt(int):
+    """an int that can be called (callable object of a builtin value type)"""
+
+    def __call__(self, *a):
+        return int(self)
+
+
+def _scale(k, x):
+    return k * x
+
+
 BUILTIN = {0: object, 1: int, 2: str, 3: list, 4: float, 5: dict, 6: tuple, 7: bool,
-           8: collections.abc.Sequence, 9: logging.Logger}
+           8: collections.abc.Sequence, 9: logging.Logger,
+           10: collections.abc.Callable, 11: functools.partial, 12: type, 13: types.FunctionType,
+           14: types.BuiltinFunctionType, 16: CallableInt}
 OTHER_CLS = 15
+CALLABLE_ABC = 10
+# the callable variant (a subclass defining __call__) of the generated data class c has id c + CALL_OFF
+CALL_OFF = 30
 # direct "is a" edges between the builtin class ids (everything is an object)
-BUILTIN_UP = {7: [1], 3: [8], 6: [8], 2: [8]}
-ALIASES = {"list[int]": 3, "List[K]": 3, "Sequence[int]": 8, "dict[str,int]": 5, "Tuple[int,int]": 6}
+BUILTIN_UP = {7: [1], 3: [8], 6: [8], 2: [8], 11: [10], 12: [10], 13: [10], 14: [10], 16: [1, 10]}
+ALIASES = {"list[int]": 3, "List[K]": 3, "Sequence[int]": 8, "dict[str,int]": 5, "Tuple[int,int]": 6,
+           "Callable[[int],int]": 10}
 KIND_CLS = {"zero": 1, "int": 1, "empty": 2, "str": 2, "list": 3, "elist": 3, "etuple": 6,
-            "true": 7, "false": 7, "float": 4, "edict": 5}
+            "true": 7, "false": 7, "float": 4, "edict": 5,
+            "partial": 11, "klass": 12, "func": 13, "builtin": 14, "cint": 16}
 KIND_TRUTHY = {"inst": True, "zero": False, "int": True, "empty": False, "str": True, "list": True,
                "elist": False, "etuple": False, "true": True, "false": False, "float": False,
-               "edict": False}
+               "edict": False, "partial": True, "klass": True, "func": True, "builtin": True, "cint": True}
+# pool kinds whose value is callable() without being a bound method: functools.partial, a class
+# object, a plain function (on the instance, or a staticmethod of the robot class), a builtin
+# function, an int subclass with __call__; plus instances ("inst") of a callable data class
+CALLABLE_KINDS = ("partial", "klass", "func", "builtin", "cint")
+INHERITED_CALLABLE = ["isReal", "isSimulation", "getRuntimeType"]    # static pybind11 functions of RobotBase
+
+
+def callable_cid(cid):
+    return 20 + CALL_OFF <= cid < 100
+
+
+def pool_callable(kind, cid):
+    """callable(value) for a pool entry (never a bound method)"""
+    return kind in CALLABLE_KINDS or (kind == "inst" and callable_cid(cid))
 UNKNOWN = 4999
 MISSING = object()
 
@@ -59,6 +94,7 @@ def parents_of(spec):
     up = {k: list(v) for k, v in BUILTIN_UP.items()}
     for cid, par in spec["data_classes"]:
         up[cid] = [par] if par else []
+        up[cid + CALL_OFF] = [cid, CALLABLE_ABC]
     for k, cc in enumerate(spec["comps"]):
         up[comp_cid(k)] = [comp_base_cid(k)] if cc["base"] else []
     return up
@@ -129,6 +165,9 @@ def build(spec):
         c = type("K%d" % cid, (cls_of[par] if par else object,), {"__module__": NS})
         cls_of[cid] = c
         setattr(ns, c.__name__, c)
+        cv = type("K%d" % (cid + CALL_OFF), (c,), {"__module__": NS, "__call__": lambda self, *a: None})
+        cls_of[cid + CALL_OFF] = cv
+        setattr(ns, cv.__name__, cv)
     b.cls_of = cls_of
     # pool of values
     pool = {}
@@ -157,10 +196,21 @@ def build(spec):
             v = 0.0
         elif kind == "edict":
             v = {}
+        elif kind == "partial":
+            v = functools.partial(_scale, oid)
+        elif kind == "klass":
+            v = type("V%d" % oid, (object,), {"__module__": NS})
+        elif kind == "func":
+            v = (lambda x, _o=oid: x)
+        elif kind == "builtin":
+            v = len
+        elif kind == "cint":
+            v = CallableInt(200000 + oid)
         else:
             raise ValueError(kind)
         pool[oid] = v
     b.pool = pool
+    funcs = {oid for oid, kind, cid in spec["pool"] if kind == "func"}
     b.ctor_log = []      # (instance, kwargs dict) in construction order
     b.snaps = []         # raw snapshots taken by setup()
     b.robot = None
@@ -177,7 +227,8 @@ def build(spec):
         if k == "alias":
             return {"list[int]": list[int], "List[K]": typing.List[object],
                     "Sequence[int]": typing.Sequence[int], "dict[str,int]": dict[str, int],
-                    "Tuple[int,int]": typing.Tuple[int, int]}[form[1]]
+                    "Tuple[int,int]": typing.Tuple[int, int],
+                    "Callable[[int],int]": typing.Callable[[int], int]}[form[1]]
         if k == "optional":
             return typing.Optional[cls_of[form[1]]]
         if k == "union":
@@ -296,7 +347,8 @@ def build(spec):
             continue
         d = base_d if (lvl == "base" and spec["rbase"]) else der_d
         if kind == "plain":
-            d[n] = val(v)
+            # a plain function in a class body would become a bound method of the robot
+            d[n] = staticmethod(val(v)) if v in funcs else val(v)
         elif kind == "method":
             d[n] = (lambda self: None)
         else:
@@ -304,8 +356,8 @@ def build(spec):
 
     def createObjects(self):
         for n, kind, v in create:
-            if kind == "method":
-                setattr(self, n, types.MethodType(lambda self: None, self))
+            if kind == "method":      # a bound method of the robot, or of some other object
+                setattr(self, n, types.MethodType(lambda self: None, self if len(n) % 2 else object()))
             else:
                 setattr(self, n, val(v))
     (base_d if (spec["rbase"] and spec.get("create_in_base")) else der_d)["createObjects"] = createObjects
@@ -485,12 +537,15 @@ def inherited_values(b):
         if n in own or n.startswith("_"):
             continue
         v = getattr(b.robot_cls, n, None)
-        cid = {float: 4, bool: 7, int: 1, str: 2}.get(type(v), 9 if isinstance(v, logging.Logger) else OTHER_CLS)
+        cid = {float: 4, bool: 7, int: 1, str: 2, types.BuiltinFunctionType: 14}.get(
+            type(v), 9 if isinstance(v, logging.Logger) else OTHER_CLS)
         kind = "plain"
         if isinstance(v, property) or type(v).__name__ == "tunable":
             kind = "property"
         elif inspect.isfunction(v):
             kind = "method"
+        elif callable(v):       # e.g. the static pybind11 functions isReal / isSimulation: not bound methods
+            kind = "callable"
         oid = 900 + k
         for po, pv in b.pool.items():       # True/False/0/'' are singletons: one identity, one id
             if pv is v:
@@ -526,19 +581,26 @@ def analyse(spec, inherited):
     up = parents_of(spec)
     info = {}                                   # oid -> class id
     truthy = {}
+    callables = {}                              # oid -> what kind of callable (never a bound method)
     for oid, kind, cid in spec["pool"]:
         info[oid] = cid if kind == "inst" else KIND_CLS[kind]
         truthy[oid] = KIND_TRUTHY[kind]
+        if pool_callable(kind, cid):
+            callables[oid] = "instance-with-__call__" if kind == "inst" else kind
     rattrs = {}                                 # every name of dir(robot): (kind, oid|None)
     for n, (oid, cid, tr, kind, isnone) in inherited.items():
         rattrs[n] = (kind, None if isnone else oid)
         info[oid] = cid
         truthy.setdefault(oid, bool(tr))
+        if kind == "callable":
+            callables[oid] = "inherited-static-function"
     for n, lvl, kind, v in spec["rattrs"]:
         rattrs[n] = (kind, v)
+    # the robot's injectables: every public attribute except "logger", properties/tunables and BOUND
+    # METHODS -- "the very object stored on the robot under the same name", callable or not
     inj = {}
     for n, (kind, v) in rattrs.items():
-        if n.startswith("_") or n == "logger" or kind != "plain" or v is None:
+        if n.startswith("_") or n == "logger" or kind not in ("plain", "callable") or v is None:
             continue
         inj[n] = v
     comps, faults = [], []
@@ -565,8 +627,11 @@ def analyse(spec, inherited):
             return "wrong"
         if not truthy.get(o, True):
             return "falsy"
+        if o in callables:
+            return "callable"
         return "right" if info[o] == T else "subclass"
     combos = []
+    callable_reqs = []
 
     def req(m, c, a, form, where):
         ft = form_type(form)
@@ -581,6 +646,8 @@ def analyse(spec, inherited):
         if not is_sub(up, info[o], ft[1]):
             faults.append((where, c, a, "mistyped-under-plain-name" if a in m else "mistyped-under-prefixed-name", 1))
             return None
+        if o in callables:
+            callable_reqs.append((where, callables[o], "plain-name" if a in m else "prefixed-name"))
         return o
     exp_ctor, exp_attr, rel = {}, {}, {}
     m = dict(inj)
@@ -609,7 +676,7 @@ def analyse(spec, inherited):
                 continue
             exp_attr[("m", j, a)] = req(m, md["name"], a, form, "mode")
     return {"comps": comps, "faults": faults, "exp_ctor": exp_ctor, "exp_attr": exp_attr, "rel": rel,
-            "info": info, "inj": inj, "combos": combos}
+            "info": info, "inj": inj, "combos": combos, "callable_reqs": callable_reqs, "callables": callables}
 
 
 def classify(m, inj, comps, c, a):
@@ -734,8 +801,10 @@ def emit_case(spec, res):
     for n, lvl, kind, v in spec["rattrs"]:
         dirl.append((n, kind, v))
     dirl.sort()
-    kinds = {"plain": "KPlain", "method": "KMethod", "property": "KDescriptor"}
-    r_dir = coq_list(["(Build_rattr %s %s %s)" % (coq_string(n), kinds[k], cval(v) if k == "plain" else "None")
+    kinds = {"plain": "KPlain", "callable": "KCallable", "method": "KMethod", "property": "KDescriptor"}
+    callable_oids = {oid for oid, kind, cid in spec["pool"] if pool_callable(kind, cid)}
+    dirl = [(n, "callable" if (k == "plain" and v in callable_oids) else k, v) for n, k, v in dirl]
+    r_dir = coq_list(["(Build_rattr %s %s %s)" % (coq_string(n), kinds[k], cval(v) if k in ("plain", "callable") else "None")
                       for n, k, v in dirl])
 
     def classdef(k):
@@ -808,15 +877,16 @@ def cases_file(terms):
 # ---------------------------------------------------------------------------
 # generator
 # ---------------------------------------------------------------------------
-SINGLETONS = ("zero", "empty", "etuple", "true", "false", "float")
+SINGLETONS = ("zero", "empty", "etuple", "true", "false", "float", "builtin")
 FALSY = ("zero", "empty", "elist", "etuple", "false", "float", "edict")
 OK_REL = ["name"] * 8 + ["prefix"] * 4 + ["both"] * 3 + ["none_prefix"] * 2 + ["subclass"] * 3 + ["falsy"] * 4 + [
     "preset_class", "preset_init", "preset_none", "private", "alias_ok", "alias_ok", "compref", "compref",
-    "compref", "compref", "logger", "inherited", "fwd", "object"]
+    "compref", "compref", "logger", "inherited", "fwd", "object"] + ["callable"] * 4 + ["callable_prefix"] * 2 + [
+    "inherited_callable"]
 CTOR_REL = ["name"] * 6 + ["prefix"] * 3 + ["both", "none_prefix", "subclass", "falsy", "falsy", "alias_ok", "object",
-                                            "fwd", "inherited"]
+                                            "fwd", "inherited"] + ["callable"] * 3 + ["callable_prefix", "inherited_callable"]
 BAD_REL = ["absent", "absent", "wrongtype", "wrongtype", "alias_wrong", "optional", "union", "lit", "compref_wrong",
-           "method", "property", "none_only"]
+           "method", "method", "property", "none_only"]
 
 
 class Gen:
@@ -838,11 +908,13 @@ class Gen:
 
     def supers(self, cid):
         up = {c: [p] if p else [] for c, p in self.data}
+        up.update({c + CALL_OFF: [c, CALLABLE_ABC] for c, p in self.data})
         up.update(BUILTIN_UP)
         for k in range(8):
             up[comp_cid(k)] = [comp_base_cid(k)] if k < len(getattr(self, "comps", [])) and self.comps[k]["base"] else []
         return [b for b in [0, 1, 2, 3, 4, 5, 6, 7, 8] + [d[0] for d in self.data] + [comp_cid(k) for k in range(8)]
-                + [comp_base_cid(k) for k in range(8)] if is_sub(up, cid, b)]
+                + [comp_base_cid(k) for k in range(8)] + [10, 11, 12, 13, 14, 16] + [d[0] + CALL_OFF for d in self.data]
+                if is_sub(up, cid, b)]
 
     def obj(self, kind, cid=0):
         if kind in SINGLETONS and kind in self.single:
@@ -863,6 +935,12 @@ class Gen:
             return self.obj(r.choice(FALSY))
         k = r.choice(["inst"] * 5 + ["int", "str", "list", "true"])
         return self.obj(k, r.choice(self.data)[0] if k == "inst" else 0)
+
+    def fresh_callable(self):
+        """a callable object that is not a bound method"""
+        r = self.r
+        k = r.choice(["inst"] * 4 + ["partial", "partial", "klass", "klass", "func", "builtin", "cint"])
+        return self.obj(k, r.choice(self.data)[0] + CALL_OFF if k == "inst" else 0)
 
     def level(self):
         return self.r.choice(["class", "create", "create"] + (["base"] if self.rbase else []))
@@ -975,6 +1053,17 @@ class Gen:
             a = r.choice(INHERITED)
             form = ["cls", {"control_loop_wait_time": 4, "use_teleop_in_autonomous": r.choice([7, 1, 0]),
                             "error_report_interval": r.choice([4, 0])}[a]]
+        elif rel == "callable":
+            e = self.attr(a, self.fresh_callable)
+            form = self.form_of_entry(e, a, cname)
+            if form == ["cls", CALLABLE_ABC] and r.random() < 0.5:
+                form = ["alias", "Callable[[int],int]"]
+        elif rel == "callable_prefix":
+            e = self.attr(pa, self.fresh_callable)
+            form = self.form_of_entry(e, a, cname, pa)
+        elif rel == "inherited_callable":
+            a = r.choice(INHERITED_CALLABLE)
+            form = r.choice([["cls", 0], ["cls", 14], ["cls", CALLABLE_ABC], ["alias", "Callable[[int],int]"]])
         elif rel == "absent":
             form = ["cls", r.choice([0, 20, 1])]
         elif rel == "wrongtype":
@@ -1098,7 +1187,9 @@ class Gen:
 INH_STATIC = {"control_loop_wait_time": [900, 4, True, "plain", False],
               "use_teleop_in_autonomous": [901, 7, False, "plain", False],
               "error_report_interval": [902, 4, True, "plain", False],
-              "logger": [903, 9, True, "plain", False]}
+              "logger": [903, 9, True, "plain", False],
+              "isReal": [904, 14, True, "callable", False], "isSimulation": [905, 14, True, "callable", False],
+              "getRuntimeType": [906, 14, True, "callable", False]}
 
 
 def repair(spec, keep, rng):
@@ -1177,15 +1268,16 @@ def edge_specs(rng):
     return out
 
 
-STATES = ["absent", "right", "subclass", "wrong", "falsy", "None"]
+STATES = ["absent", "right", "subclass", "wrong", "falsy", "None", "callable"]
 
 
 def product_specs(rng, reps):
     """The relation between one annotated attribute and the robot's objects as a
     deliberately enumerated product:
       target kind {component attribute, constructor parameter, mode attribute}
-      x object under the plain name   {absent, right type, subclass instance, wrong type, falsy, None}
-      x object under '<target>_<name>' {the same six},
+      x object under the plain name   {absent, right type, subclass instance, wrong type, falsy, None,
+                                       callable object of the right type (not a bound method)}
+      x object under '<target>_<name>' {the same seven},
     `reps` robots per combination (alone, or embedded in a random well-formed
     robot; class / createObjects level; both startup paths)."""
     out = []
@@ -1242,9 +1334,11 @@ def product_spec(rng, tkind, plain, pref, embed):
             return None
         if use_int:
             return {"right": lambda: new_obj("int"), "subclass": lambda: new_obj("true"),
-                    "wrong": lambda: new_obj(rng.choice(["str", "inst"]), unrelated[0]), "falsy": lambda: new_obj("zero")}[st]()
+                    "wrong": lambda: new_obj(rng.choice(["str", "inst"]), unrelated[0]), "falsy": lambda: new_obj("zero"),
+                    "callable": lambda: new_obj("cint")}[st]()
         return {"right": lambda: new_obj("inst", 20), "subclass": lambda: new_obj("inst", child[0]),
-                "wrong": lambda: new_obj("inst", unrelated[0])}[st]()
+                "wrong": lambda: new_obj("inst", unrelated[0]),
+                "callable": lambda: new_obj("inst", rng.choice([20, child[0]]) + CALL_OFF)}[st]()
     T = 1 if use_int else 20
     names = {x[0] for x in spec["rattrs"]} | {h[0] for h in spec["rhints"]} | {m["name"] for m in spec["modes"]}
     tname = [n for n in ("p", "q", "pc", "pm") if n not in names][0]
@@ -1496,6 +1590,11 @@ def run(ctx):
             ctx.count("fault=%s/%s" % (f[0], f[3]))
         for where, st_plain, st_pref in an["combos"]:
             ctx.count("combo=%s|plain=%s|prefixed=%s" % (where, st_plain, st_pref))
+        for where, what, under in an["callable_reqs"]:
+            ctx.count("callable-injectable=%s|%s|%s" % (where, what, under))
+        for n, lvl, kind, v in spec["rattrs"]:
+            if kind == "plain" and v is not None and v in an["callables"]:
+                ctx.count("callable-robot-attr=%s|%s" % (an["callables"][v], "createObjects" if lvl == "create" else "class-level"))
         ctx.count("faults=%s" % (len(an["faults"]) if len(an["faults"]) < 3 else ">=3"))
         if any(spec["comps"][k]["init"] for _, k, _ in an["comps"]):
             ctx.count("with-constructor-injection")
@@ -1536,8 +1635,11 @@ def run(ctx):
         "rule": "robot definitions (0-4 components over shared/inherited classes, 0-5 annotated attributes each, constructor "
                 "parameters, 0-2 autonomous modes, class/base-class/createObjects robot attributes) built with type() and started "
                 "through _create_components() or robotInit(); every relation of the quantifier is forced at least 4 times, the product "
-                "{component attribute, ctor parameter, mode attribute} x {absent,right,subclass,wrong,falsy,None} under the plain "
-                "name x the same under '<target>_<name>' is enumerated (6 | 40 robots per combination, see distribution combo=*), "
+                "{component attribute, ctor parameter, mode attribute} x {absent,right,subclass,wrong,falsy,None,callable} under "
+                "the plain name x the same under '<target>_<name>' is enumerated (6 | 40 robots per combination, see distribution "
+                "combo=*); robot attributes whose value is callable without being a bound method (instance of a class with "
+                "__call__, functools.partial, class object, function on the instance / staticmethod, builtin function, callable "
+                "int, RobotBase's static functions; class level and createObjects level; see callable-*), "
                 "then 60% fault-free / 30% one planted fault / 10% wild; non-trivial = started with >= 2 components and a "
                 "cross-component reference or >= 3 injected attributes, or exactly one fault",
         "samples": samples, "exhaustive": False, "corpus_cases": ncorpus})
